@@ -10,6 +10,7 @@ contract `retr (retr p d) (neg d) = p` (`hinv`); it is discharged for Euclidean 
 `vec_retr_inv` and for SO3 parameters (closed-form branch of `Exp`) in `so3_retr_inv`.
 -/
 namespace PP.LMLoop
+open PP
 variable {P D S : Type} (pr : Prob P D ℝ) (reject : Nat) (e : Env P D S ℝ)
 
 /-! ## the accept/reject loop of one call -/
@@ -228,9 +229,6 @@ theorem lm_raise_spec (p0 : P) (s0 : S) (cached : Option ℝ)
 
 /-! ## histories of calls -/
 
-/-- the optimizer object is *consistent*: its cached loss (if any) is the loss at its parameters -/
-def Consistent (o : Opt P S ℝ) : Prop := o.cached = none ∨ o.cached = some (pr.lossAt o.p)
-
 omit hinv in
 theorem consistent_fresh (p : P) (s : S) :
     Consistent pr ({ p := p, s := s, cached := none, last := none, rc := 0 } : Opt P S ℝ) := Or.inl rfl
@@ -289,6 +287,35 @@ theorem lmRun_reports_true_loss (es : List (Env P D S ℝ)) (o : Opt P S ℝ) (h
     · exact ih _ (lmCall_spec pr reject e hinv o ho).1 h
 
 end contract
+
+/-- **Over any history in which no call runs out of rejections the loss never goes up**: the loss cached
+after the history is at most the loss at the initial parameters. -/
+theorem lmRun_monotone (hinv : ∀ p d, pr.retr (pr.retr p d) (pr.neg d) = p)
+    (es : List (Env P D S ℝ)) (o : Opt P S ℝ) (ho : Consistent pr o)
+    (hne : ∀ k, k < es.length → (lmRun pr reject o (es.take (k + 1))).rc < reject) :
+    ∀ l, (lmRun pr reject o es).cached = some l → es ≠ [] → l ≤ pr.lossAt o.p := by
+  induction es generalizing o with
+  | nil => intro l _ h; exact absurd rfl h
+  | cons e es ih =>
+    intro l hl _
+    have hc := lmCall_spec pr reject e hinv o ho
+    have hrc : (lmCall pr reject o e).rc < reject := by
+      have := hne 0 (by simp)
+      simpa [lmRun] using this
+    have h1 : pr.lossAt (lmCall pr reject o e).p ≤ pr.lossAt o.p := by
+      rcases hc.2.2.2.2 _ hc.2.1 with h | h
+      · exact h
+      · omega
+    by_cases hes : es = []
+    · subst hes
+      have : (lmRun pr reject o [e]).cached = some (pr.lossAt (lmCall pr reject o e).p) := hc.2.1
+      rw [this] at hl
+      rw [← Option.some.inj hl]; exact h1
+    · have := ih (lmCall pr reject o e) hc.1 (by
+        intro k hk
+        have := hne (k + 1) (by simp; omega)
+        simpa [lmRun] using this) l hl hes
+      exact le_trans this h1
 
 /-- **Any invariant of the strategy state that `update` preserves survives every call** (used below for
 the `[min,max]` bounds): the loop only ever changes `pg` through `strategy.update`. -/
@@ -469,14 +496,6 @@ theorem trust_bounds (h : Hyper ℝ) (s : SState ℝ) (num den : ℝ) (hmm : h.s
   · rw [hdm]; exact one_div_le_one_div_of_le hpos hr.1
   · rw [hdm]; field_simp
 
-/-- the bounds as a predicate on `pg` -/
-def InBounds (kd : Kind) (h : Hyper ℝ) (s : SState ℝ) : Prop :=
-  match kd with
-  | .constant => True
-  | .adaptive => h.smin ≤ s.damping ∧ s.damping ≤ h.smax
-  | .trust => h.smin ≤ s.radius ∧ s.radius ≤ h.smax ∧ h.smin ≤ s.down ∧ s.down ≤ h.smax ∧
-      s.damping * s.radius = 1
-
 theorem stratUpd_inBounds (kd : Kind) (h : Hyper ℝ) (s : SState ℝ) (num den : ℝ)
     (hmm : h.smin ≤ h.smax) (hpos : 0 < h.smin) : InBounds kd h (stratUpd kd h s num den) := by
   cases kd with
@@ -511,6 +530,27 @@ theorem lmRun_inBounds (kd : Kind) (h : Hyper ℝ) (hmm : h.smin ≤ h.smax) (hp
   obtain ⟨den, hden⟩ := hes e he
   rw [hden]
   exact stratUpd_inBounds kd h s _ _ hmm hpos
+
+/-- after a call whose first solve succeeded, `pg` is within the strategy's bounds whatever it was before -/
+theorem lmStep_inBounds_of_first_solve (kd : Kind) (h : Hyper ℝ) (hmm : h.smin ≤ h.smax) (hpos : 0 < h.smin)
+    (pr : Prob P D ℝ) (e : Env P D (SState ℝ) ℝ) (den : D → ℝ)
+    (hupd : ∀ s a b d, e.upd s a b d = stratUpd kd h s (a - b) (den d))
+    (cached : Option ℝ) (p : P) (s : SState ℝ) (d0 : D) (hs : e.solve 0 p = some d0) :
+    InBounds kd h (lmStep pr reject e cached p s).s := by
+  unfold lmStep
+  rw [loop_succ]
+  apply loop_preserves pr reject e (InBounds kd h)
+  · intro s a b d _; rw [hupd]; exact stratUpd_inBounds kd h s _ _ hmm hpos
+  · have hst : (start pr cached p s : St P (SState ℝ) ℝ).live = true ∧ (start pr cached p s).solves = 0 ∧
+        (start pr cached p s).p = p ∧ (start pr cached p s).last ≤ (start pr cached p s).loss := by
+      cases cached <;> simp [start]
+    rcases body_spec pr reject e (start pr cached p s) with ⟨h1, _⟩ | ⟨_, hc, _⟩ | ⟨_, _, hn, _⟩ | ⟨d, _, _, _, _, _, hb⟩ |
+      ⟨d, _, _, _, _, hb⟩
+    · rw [hst.1] at h1; simp at h1
+    · exact absurd hst.2.2.2 hc
+    · rw [hst.2.1, hst.2.2.1, hs] at hn; simp at hn
+    · rw [hb]; simp only [rejSt]; rw [hupd]; exact stratUpd_inBounds kd h _ _ _ hmm hpos
+    · rw [hb]; simp only [accSt]; rw [hupd]; exact stratUpd_inBounds kd h _ _ _ hmm hpos
 
 /-- **A rejected trial is classified "unsuccessful"** whenever the predicted decrease is positive (it is
 for every genuine LM step) and the thresholds are positive (constructor asserts): so on rejection
@@ -547,21 +587,142 @@ theorem trust_rejected_shrinks (h : Hyper ℝ) (s : SState ℝ) (last loss den :
   have hq : (last - loss) / den < 0 := div_neg_of_neg_of_pos (by linarith) hden
   exact (trust_step h s (last - loss) den (ne_of_gt hden)).2.2.1 (by linarith) (by linarith)
 
+/-- **The shrinking down-factor, closed form**: after `k` consecutive unsuccessful steps with no clamp
+active, the radius is `Δ₀·down₀ᵏ·factor^{k(k-1)/2}` (`tri k = k(k-1)/2`, `tri_eq`), the down-factor is
+`down₀·factorᵏ` and the damping is `1/Δ`. -/
+theorem trust_shrink_closed_form (h : Hyper ℝ) (s : SState ℝ) (k : Nat) (hk : 1 ≤ k)
+    (hr : ∀ i, 1 ≤ i → i ≤ k → h.smin ≤ 1 / s.damping * s.down ^ i * h.factor ^ tri i ∧
+                      1 / s.damping * s.down ^ i * h.factor ^ tri i ≤ h.smax)
+    (hdn : ∀ i, 1 ≤ i → i ≤ k → h.smin ≤ s.down * h.factor ^ i ∧ s.down * h.factor ^ i ≤ h.smax) :
+    (trustBad h k s).radius = 1 / s.damping * s.down ^ k * h.factor ^ tri k ∧
+    (trustBad h k s).down = s.down * h.factor ^ k ∧
+    1 / (trustBad h k s).damping = (trustBad h k s).radius ∧ 2 * tri k = k * (k - 1) := by
+  obtain ⟨e1, e2, e3⟩ := trustBad_aux h s k hr hdn
+  exact ⟨e3 hk, e2, by rw [e1, e3 hk], tri_eq k⟩
+
+/-- the hypotheses of `trust_shrink_closed_form` hold e.g. for the library defaults (radius 10⁶, down ½,
+factor ½, bounds 10⁻⁶ … 10¹⁶) and three consecutive failures -/
+example : ∃ (h : Hyper ℝ) (s : SState ℝ), ∀ i, 1 ≤ i → i ≤ 3 →
+    (h.smin ≤ 1 / s.damping * s.down ^ i * h.factor ^ tri i ∧ 1 / s.damping * s.down ^ i * h.factor ^ tri i ≤ h.smax) ∧
+    (h.smin ≤ s.down * h.factor ^ i ∧ s.down * h.factor ^ i ≤ h.smax) := by
+  refine ⟨⟨1/2, 1/1000, 2, 1/2, 1/2, 1/1000000, 10^16⟩, ⟨1/1000000, 1000000, 1/2⟩, ?_⟩
+  intro i h1 h3
+  have : i = 1 ∨ i = 2 ∨ i = 3 := by omega
+  rcases this with rfl | rfl | rfl <;> simp only [tri] <;> norm_num
+
+/-! ## `RobustModel.loss` -/
+
+/-- one kernel (the `[Trivial()]` default or a single user kernel): every output uses it -/
+theorem robustLoss_single (rho : ℝ → ℝ) (outs : List (Output ℝ)) :
+    robustLoss [rho] outs = (outs.map (fun o => (o.map (fun r => rho (DVec.normSq r))).sum)).sum := by
+  unfold robustLoss
+  simp only [List.length_singleton, gt_iff_lt, lt_self_iff_false, if_false, List.headD_cons]
+  rw [dsum_eq]
+  congr 1
+  apply List.map_congr_left
+  intro o _
+  exact outputLoss_eq rho o
+
+/-- several kernels: the `i`-th kernel is applied to the `i`-th output -/
+theorem robustLoss_multi (ks : List (ℝ → ℝ)) (outs : List (Output ℝ)) (h : 1 < ks.length) :
+    robustLoss ks outs = (List.zipWith outputLoss ks outs).sum := by
+  unfold robustLoss
+  simp only [gt_iff_lt, h, if_true]
+  rw [dsum_eq]
+
+/-- without a kernel the robust loss is the plain sum of squares of all residual entries -/
+theorem robustLoss_trivial (outs : List (Output ℝ)) :
+    robustLoss [rhoTrivial] outs = (outs.map (fun o => (o.map DVec.normSq).sum)).sum := by
+  rw [robustLoss_single]; rfl
+
+/-- the robust loss is non-negative whenever every kernel maps `[0,∞)` to `[0,∞)` -/
+theorem robustLoss_nonneg (ks : List (ℝ → ℝ)) (hk : ∀ rho ∈ ks, ∀ x, 0 ≤ x → 0 ≤ rho x) (hne : ks ≠ [])
+    (outs : List (Output ℝ)) : 0 ≤ robustLoss ks outs := by
+  unfold robustLoss
+  split
+  · rw [dsum_eq]
+    apply List.sum_nonneg
+    intro x hx
+    simp only [List.mem_iff_getElem, List.getElem_zipWith, List.length_zipWith] at hx
+    obtain ⟨i, hi, rfl⟩ := hx
+    exact outputLoss_nonneg _ (hk _ (List.getElem_mem _)) _
+  · rw [dsum_eq]
+    apply List.sum_nonneg
+    intro x hx
+    simp only [List.mem_map] at hx
+    obtain ⟨o, _, rfl⟩ := hx
+    cases ks with
+    | nil => exact absurd rfl hne
+    | cons rho rest => exact outputLoss_nonneg _ (hk rho (List.mem_cons_self ..)) _
+
 /-! ## the retraction contract holds for Euclidean parameters -/
 
 /-- `p.add_(D)` then `p.add_(-D)` on Euclidean parameters (index → value) restores `p` exactly over ℝ -/
 theorem vec_retr_inv (p d : Nat → ℝ) : (fun i => (p i + d i) + -(d i)) = p := by
   funext i; ring
 
+/-! ## the retraction contract for SO3 parameters (`p.add_(D)` is `Exp(D)·p`, model `so3Exp` of `Pose/Model/Lie.lean`) -/
+
+/-- **In every branch** `Exp(-x)·(Exp(x)·X) = ‖Exp x‖²·X`: the restored quaternion is the original one up
+to the scalar factor `‖Exp x‖²` (the same rotation). -/
+theorem so3_retr_scaled (eps : ℝ) (x : Vec3 ℝ) (X : Quat ℝ) :
+    (so3Exp eps x.neg).mul ((so3Exp eps x).mul X) =
+      ⟨(so3Exp eps x).normSq * X.x, (so3Exp eps x).normSq * X.y,
+       (so3Exp eps x).normSq * X.z, (so3Exp eps x).normSq * X.w⟩ := by
+  unfold so3Exp
+  simp only [vec3_norm_neg]
+  by_cases h : eps < x.norm
+  · simp only [lt_real, h, decide_true, if_true]
+    exact quat_conj_sandwich x _ _ X
+  · simp only [lt_real, h, decide_false]
+    exact quat_conj_sandwich x _ _ X
+
+/-- **Closed-form branch (`‖x‖ > eps ≥ 0`): the restore is exact**, `Exp(-x)·(Exp(x)·X) = X`. -/
+theorem so3_retr_inv (eps : ℝ) (x : Vec3 ℝ) (X : Quat ℝ) (he : 0 ≤ eps) (h : eps < x.norm) :
+    (so3Exp eps x.neg).mul ((so3Exp eps x).mul X) = X := by
+  rw [so3_retr_scaled]
+  have hn : (so3Exp eps x).normSq = 1 := by
+    unfold so3Exp
+    simp only [lt_real, h, decide_true, if_true]
+    rw [normSq_mk, ← vec3_norm_sq]
+    have hpos : x.norm ≠ 0 := ne_of_gt (lt_of_le_of_lt he h)
+    simp only [sin_real, cos_real]
+    field_simp
+    exact Real.sin_sq_add_cos_sq _
+  rw [hn]
+  obtain ⟨a, b, c, w⟩ := X
+  simp
+
+/-- **Taylor branch (`‖x‖ ≤ eps`, `‖x‖ ≤ 1`)**: the factor is `1 + δ` with `0 ≤ δ ≤ ‖x‖⁶/23040`
+(`< 5·10⁻²³` for `eps = 10⁻³`): the restore is exact to far below round-off. -/
+theorem so3_retr_taylor (eps : ℝ) (x : Vec3 ℝ) (h : ¬ eps < x.norm) (h1 : x.norm * x.norm ≤ 1) :
+    0 ≤ (so3Exp eps x).normSq - 1 ∧ (so3Exp eps x).normSq - 1 ≤ (x.norm * x.norm) ^ 3 / 23040 := by
+  have ht0 : 0 ≤ x.norm * x.norm := mul_self_nonneg _
+  unfold so3Exp
+  simp only [lt_real, h, decide_false, Bool.false_eq_true, ↓reduceIte]
+  rw [normSq_mk, ← vec3_norm_sq]
+  generalize x.norm * x.norm = t at *
+  simp only [q_real, k_real, Nat.cast_one, Nat.cast_ofNat]
+  have e : (1 / 2 - 1 / 48 * t + 1 / 3840 * (t * t)) ^ 2 * t + (1 - 1 / 8 * t + 1 / 384 * (t * t)) ^ 2 - 1 =
+      t ^ 3 * (t ^ 2 - 60 * t + 640) / 14745600 := by ring
+  rw [e]
+  have ht3 : 0 ≤ t ^ 3 := by positivity
+  have hq : 0 ≤ t ^ 2 - 60 * t + 640 := by nlinarith
+  have hq2 : t ^ 2 - 60 * t + 640 ≤ 640 := by nlinarith
+  constructor
+  · positivity
+  · have : t ^ 3 * (t ^ 2 - 60 * t + 640) ≤ t ^ 3 * 640 := mul_le_mul_of_nonneg_left hq2 ht3
+    rw [div_le_div_iff₀ (by norm_num) (by norm_num)]
+    nlinarith
+
+example : ∃ (eps : ℝ) (x : Vec3 ℝ), 0 ≤ eps ∧ eps < x.norm :=
+  ⟨0, ⟨1, 0, 0⟩, le_rfl, by simp [Vec3.norm, Vec3.normSq]⟩
+
 /-! ## non-vacuity: concrete runs of the model (`P = D = ℚ`-like reals, loss `x²`) -/
 
 section examples
-/-- 1-D problem: loss `x²`, retraction `x + d`, a "solver" that overshoots twice (`d = -3x`, loss ×4)
-and then returns the Newton step; with `reject = 5` the call makes 3 trials, rejects 2. -/
-def exProb : Prob ℝ ℝ ℝ := { lossAt := fun x => x * x, retr := fun x d => x + d, neg := fun d => -d }
-def exEnv : Env ℝ ℝ Nat ℝ :=
-  { solve := fun i x => if i < 2 then some (-3 * x) else some (-x), upd := fun s _ _ _ => s + 1 }
-
+/-! `exProb`: loss `x²`, retraction `x + d`; `exEnv`: a solver that overshoots twice (`d = -3x`, loss ×4) and
+then returns the Newton step. With `reject = 5` the call makes 3 trials and rejects 2. -/
 example : ∀ p d, exProb.retr (exProb.retr p d) (exProb.neg d) = p := by
   intro p d; simp [exProb]
 
